@@ -520,6 +520,8 @@ class NearestNeighborModel(Model):
                     # the new_H_onsite needs to be added to the right-most Hb
                     prev_gs = grouped_sites[k - 1]
                     add_Hb = npc.outer(prev_gs.Id.transpose(['p', 'p*']), new_H_onsite)
+                    # fix the labels: `+` transposes arrays with the same labels in different order
+                    add_Hb.iset_leg_labels(['p0', 'p0*', 'p1', 'p1*'])
                     H_bond[-1] = add_with_None_0(H_bond[-1], add_Hb)
             H_bond[k2] = add_with_None_0(H_bond[k2], new_Hb)
             i += gs.n_sites
